@@ -705,6 +705,7 @@ pub struct World {
     pub trace: Option<Vec<String>>,
     pub hal: HalState,
     pub tr: TrState,
+    pub bus: crate::mmio::MmioBus,
     pub dq: Vec<DevQueue>,
     pub dev: Option<Box<dyn Personality>>,
     pub violations: Vec<Violation>,
@@ -824,6 +825,7 @@ impl World {
             trace: None,
             hal: HalState::new(),
             tr: TrState::new(),
+            bus: Default::default(),
             dq: Vec::new(),
             dev: Some(Box::new(PatternDevice { full_len: false, seen: BTreeMap::new() })),
             violations: Vec::new(),
